@@ -7,6 +7,7 @@ import SciVerif.Lemmas.C17i
 import SciVerif.Lemmas.C17j
 import SciVerif.Lemmas.C17k
 import SciVerif.Lemmas.C17l
+import SciVerif.Lemmas.C17m
 import SciVerif.Generated.C17Units
 
 /-!
@@ -691,6 +692,98 @@ example : let env : Env := { Env.empty with
     invB unitTable { env with nodes := [{ blank ['d'] .float with value := some (.str ['x']) }] } = false ∧
     invB unitTable { env with nodes := [{ blank ['d'] .str with value := some (.str ['x']), unitsRaw := some ['m'] }] } = false := by
   decide +kernel
+
+/-- Proved part, a further layer of the code inside the theorem: not the bare main loop
+    (`foldlM step`) but the functions the correspondence runs against `DIP.parse` — `parseC` (main
+    loop WITH the `@case` branch state, then the final validation loop `validate`) and `parse`.
+    For an initial environment accepted by `invB` and a program accepted by `runNB` (both
+    computations), whenever the specification accepts the statements: `parseC` and `parse` return
+    the same environment, its abstraction is the specification's result, and `invB` accepts it.
+    (The lines of `NLine` are never clause lines, so the branch state stays empty; `Inv` of the
+    result makes the validation loop pass: no stored node is left without value.)  Still missing
+    from `C17_refinement_statement`: as for `C17_refinement_nested_imports_partial`. -/
+theorem C17_refinement_parse_partial (tbl : UnitTable) (lines : List NLine) (items : List Item)
+    (env : Env) (s' : SEnv) (hinv : invB tbl env = true) (hchk : runNB tbl env lines = true)
+    (hc : lines.mapM NLine.item = some items)
+    (h : sRun tbl (absEnv env) (lines.filterMap NLine.stmt?) = .ok s') :
+    ∃ env', parseC tbl env items = .ok env' ∧ parse tbl env items = .ok env' ∧ absEnv env' = s' ∧
+      invB tbl env' = true := by
+  obtain ⟨env', h1, h2, h3, h4⟩ := refine_parse tbl lines items env s' ((invB_iff tbl env).1 hinv) hchk hc h
+  exact ⟨env', h1, h2, h3, (invB_iff tbl env').2 h4⟩
+
+/-- Proved part, `DIP(base)`: a base text parsed first (`parseC` from `env`, giving `benv`), then
+    the main text parsed on top of `benv`.  All hypotheses about environment and programs are
+    computations: `invB` on the initial environment, `runNB` on the base text there, and `runNB` on
+    the main text in the environment the base parse returns (`afterB`).  Whenever the specification
+    accepts the base statements (result `s1`) and then the main statements from `s1` (result `s2`),
+    both parses succeed, the base environment abstracts to `s1`, the final one to `s2`, and `invB`
+    accepts it.  Missing: as for `C17_refinement_nested_imports_partial`; the frame property (base
+    object unchanged) is `C17_base_unchanged`. -/
+theorem C17_refinement_on_base_partial (tbl : UnitTable) (base main : List NLine) (bitems mitems : List Item)
+    (env : Env) (s1 s2 : SEnv) (hinv : invB tbl env = true)
+    (hb : runNB tbl env base = true) (hcb : base.mapM NLine.item = some bitems)
+    (h1 : sRun tbl (absEnv env) (base.filterMap NLine.stmt?) = .ok s1)
+    (hm : afterB tbl env bitems (fun benv => runNB tbl benv main) = true)
+    (hcm : main.mapM NLine.item = some mitems)
+    (h2 : sRun tbl s1 (main.filterMap NLine.stmt?) = .ok s2) :
+    ∃ benv env', parseC tbl env bitems = .ok benv ∧ absEnv benv = s1 ∧ parseC tbl benv mitems = .ok env' ∧
+      absEnv env' = s2 ∧ invB tbl env' = true := by
+  obtain ⟨e1, e2, a, b, c, d, e⟩ := refine_two_stage tbl base main bitems mitems env s1 s2 id id
+    (fun e he => ⟨he, rfl⟩) ((invB_iff tbl env).1 hinv) hb hcb h1 hm hcm h2
+  exact ⟨e1, e2, a, b, c, d, (invB_iff tbl e2).2 e⟩
+
+/-- Proved part, remote files: the text of a remote file is parsed on its own from `env` (the
+    sources installed so far), its nodes and custom units are installed as source `name`
+    (`withSource`; on the specification side `sWithSource`), then the main text is parsed.  Same
+    form as `C17_refinement_on_base_partial`: only computations as hypotheses; both parses succeed
+    and the final environment abstracts to the specification's.  `withSource` keeps `Inv` and
+    commutes with the abstraction, so the step can be iterated for any number of files. -/
+theorem C17_refinement_with_source_partial (tbl : UnitTable) (name : Str) (src main : List NLine)
+    (sitems mitems : List Item) (env : Env) (sS s' : SEnv) (hinv : invB tbl env = true)
+    (hs : runNB tbl env src = true) (hcs : src.mapM NLine.item = some sitems)
+    (h1 : sRun tbl (absEnv env) (src.filterMap NLine.stmt?) = .ok sS)
+    (hm : afterB tbl env sitems (fun envS => runNB tbl (withSource env name envS) main) = true)
+    (hcm : main.mapM NLine.item = some mitems)
+    (h2 : sRun tbl (sWithSource (absEnv env) name sS) (main.filterMap NLine.stmt?) = .ok s') :
+    ∃ envS env', parseC tbl env sitems = .ok envS ∧ absEnv envS = sS ∧
+      parseC tbl (withSource env name envS) mitems = .ok env' ∧ absEnv env' = s' ∧ invB tbl env' = true := by
+  have hi := (invB_iff tbl env).1 hinv
+  obtain ⟨e1, e2, a, b, c, d, e⟩ := refine_two_stage tbl src main sitems mitems env sS s'
+    (fun e => withSource env name e) (fun s => sWithSource (absEnv env) name s)
+    (fun e he => ⟨inv_withSource tbl env e name hi he, abs_withSource env e name⟩) hi hs hcs h1 hm hcm h2
+  exact ⟨e1, e2, a, b, c, d, (invB_iff tbl e2).2 e⟩
+
+/-- the assembly of the initial environment keeps the invariant and commutes with the abstraction -/
+theorem C17_inv_with_source (tbl : UnitTable) (env envS : Env) (name : Str) (h : Inv tbl env) (hS : Inv tbl envS) :
+    Inv tbl (withSource env name envS) ∧
+    absEnv (withSource env name envS) = sWithSource (absEnv env) name (absEnv envS) :=
+  ⟨inv_withSource tbl env envS name h hS, abs_withSource env envS name⟩
+
+/-- the computational hypotheses of the two staged theorems hold for non-trivial instances: base
+    `a float = 3 m` then main `b float = {?a}` / `a = {?b} cm`; remote file `t str = "x"` installed
+    as `s`, then main `b str = {s?t}`; the specification accepts both stages -/
+example :
+    let base : List NLine := [.base (.stmt 0 ['a'] (.defn [['a']] .float [] (.lit (.num 3)) (some ['m'])))]
+    let main : List NLine := [.base (.stmt 0 ['b'] (.defn [['b']] .float [] (.inj none (.exact [['a']]) []) none)),
+                              .base (.stmt 0 ['a'] (.modl [['a']] (.inj none (.exact [['b']]) []) (some ['c', 'm'])))]
+    let src : List NLine := [.base (.stmt 0 ['t'] (.defn [['t']] .str [] (.lit (.str ['x'])) none))]
+    let main2 : List NLine := [.base (.stmt 0 ['b'] (.defn [['b']] .str [] (.inj (some ['s']) (.exact [['t']]) []) none))]
+    invB unitTable Env.empty = true ∧ runNB unitTable Env.empty base = true ∧
+    (∃ bitems, base.mapM NLine.item = some bitems ∧
+      afterB unitTable Env.empty bitems (fun benv => runNB unitTable benv main) = true ∧
+      (parseC unitTable Env.empty bitems).toOption.isSome = true) ∧
+    (match sRun unitTable (absEnv Env.empty) (base.filterMap NLine.stmt?) with
+     | .ok s1 => (sRun unitTable s1 (main.filterMap NLine.stmt?)).toOption.isSome
+     | .error _ => false) = true ∧
+    runNB unitTable Env.empty src = true ∧
+    (∃ sitems, src.mapM NLine.item = some sitems ∧
+      afterB unitTable Env.empty sitems (fun envS => runNB unitTable (withSource Env.empty ['s'] envS) main2) = true ∧
+      (parseC unitTable Env.empty sitems).toOption.isSome = true) ∧
+    (match sRun unitTable (absEnv Env.empty) (src.filterMap NLine.stmt?) with
+     | .ok sS => (sRun unitTable (sWithSource (absEnv Env.empty) ['s'] sS) (main2.filterMap NLine.stmt?)).toOption.isSome
+     | .error _ => false) = true := by
+  refine ⟨by decide +kernel, by decide +kernel, ⟨_, rfl, by decide +kernel, by decide +kernel⟩, by decide +kernel,
+    by decide +kernel, ⟨_, rfl, by decide +kernel, by decide +kernel⟩, by decide +kernel⟩
 
 /-- The case the import side condition of `InFrag` excludes, as a theorem of its own: when the
     specification's import selects no node — it then records `mayReject`, i.e. allows the program
